@@ -951,6 +951,11 @@ func HandleDisconnectUser(cc *hotline.ClientConn, t *hotline.Transaction) (res [
 	clientID := [2]byte(t.GetField(hotline.FieldUserID).Data)
 	clientConn := cc.Server.ClientMgr.Get(clientID)
 
+	// The user may have left between the moment the requester saw it in the user list and now.
+	if clientConn == nil {
+		return cc.NewErrReply(t, "User not found.")
+	}
+
 	if clientConn.Authorize(hotline.AccessCannotBeDiscon) {
 		return cc.NewErrReply(t, clientConn.Account.Login+" is not allowed to be disconnected.")
 	}
@@ -1589,11 +1594,16 @@ func HandleInviteNewChat(cc *hotline.ClientConn, t *hotline.Transaction) (res []
 	// Client to Invite
 	targetID := t.GetField(hotline.FieldUserID).Data
 
+	// The user may have left between the moment the requester saw it in the user list and now.
+	targetClient := cc.Server.ClientMgr.Get([2]byte(targetID))
+	if targetClient == nil {
+		return cc.NewErrReply(t, "User not found.")
+	}
+
 	// Create a new chat with self as initial member.
 	newChatID := cc.Server.ChatMgr.New(cc)
 
 	// Check if target user has "Refuse private chat" flag
-	targetClient := cc.Server.ClientMgr.Get([2]byte(targetID))
 	flagBitmap := big.NewInt(int64(binary.BigEndian.Uint16(targetClient.Flags[:])))
 	if flagBitmap.Bit(hotline.UserFlagRefusePChat) == 1 {
 		res = append(res,
